@@ -338,8 +338,8 @@ func TestC14(t *testing.T) {
 					slots = append(slots, slot{n, i})
 				}
 			}
-			// unkeyed-list entries only rarely: keyed and ordered entries are what the property names first
-			ulOK := rapid.IntRange(0, 4).Draw(rt, "ulistInsert") == 0
+			// unkeyed-list entries in half of the cases
+			ulOK := rapid.IntRange(0, 1).Draw(rt, "ulistInsert") == 0
 			k := rapid.IntRange(1, 4).Draw(rt, "inserts")
 			for j := 0; j < k && len(slots) > 0; j++ {
 				i := rapid.IntRange(0, len(slots)-1).Draw(rt, "slot")
